@@ -77,7 +77,8 @@ type vfModel struct {
 
 	flying   int64
 	avg      float64
-	dropped  bool // shedding episode in progress
+	dropped  bool // shedding episode in progress (ends at an Allow with the CPU below the threshold >= 1 s after the last overload)
+	dropMay  bool // same, but the episode ends only > 1 s after: at exactly 1 s the statement leaves both answers open
 	everOver bool
 	lastOver time.Duration
 
@@ -132,6 +133,20 @@ func vfHot(m *vfModel, t time.Duration) bool {
 	return m.dropped && m.everOver && t-m.lastOver < vfCoolOff
 }
 
+// vfHotMay is the permissive reading used for "sheds only when": exactly 1 s counts as within the second.
+func vfHotMay(m *vfModel, t time.Duration) bool {
+	return m.dropMay && m.everOver && t-m.lastOver <= vfCoolOff
+}
+
+func vfNoteBelow(m *vfModel, t time.Duration) {
+	if m.dropped && m.everOver && !vfHot(m, t) {
+		m.dropped = false
+	}
+	if m.dropMay && m.everOver && !vfHotMay(m, t) {
+		m.dropMay = false
+	}
+}
+
 // vfFactor mirrors the anchored overloadFactor for a given real CPU reading.
 func vfFactor(th, cpu int64) float64 {
 	f := (1000 - float64(cpu)) / (1000 - float64(th))
@@ -148,7 +163,8 @@ func vfFactor(th, cpu int64) float64 {
 type vfPre struct {
 	T       time.Duration
 	Over    bool
-	Hot     bool
+	Hot     bool // surely hot (< 1 s)
+	HotMay  bool // possibly hot (<= 1 s)
 	Flying  int64
 	Avg     float64
 	CapLo   float64
@@ -163,7 +179,7 @@ type vfPre struct {
 
 func vfPreOf(m *vfModel, t time.Duration, over bool) vfPre {
 	lo, hi, mp, rl, rh := vfCap(m, t)
-	return vfPre{T: t, Over: over, Hot: vfHot(m, t), Flying: m.flying, Avg: m.avg, CapLo: lo, CapHi: hi, MaxPass: mp, MinRtLo: rl, MinRtHi: rh}
+	return vfPre{T: t, Over: over, Hot: vfHot(m, t), HotMay: vfHotMay(m, t), Flying: m.flying, Avg: m.avg, CapLo: lo, CapHi: hi, MaxPass: mp, MinRtLo: rl, MinRtHi: rh}
 }
 
 type vfFinding struct{ key, what string }
@@ -173,7 +189,7 @@ func vfJudge(p vfPre, shed bool) []vfFinding {
 	var out []vfFinding
 	fl := float64(p.Flying)
 	if shed {
-		if !p.Over && !p.Hot {
+		if !p.Over && !p.HotMay {
 			out = append(out, vfFinding{"C02/shed-without-overload/cpu-below-threshold-and-not-hot",
 				"Allow shed although the CPU verdict was 'below threshold' and no overloaded Allow of a shedding episode lies within the preceding second"})
 		}
@@ -197,7 +213,7 @@ func vfJudge(p vfPre, shed bool) []vfFinding {
 			if !p.Over {
 				trig = "hot"
 			}
-			mayShed := (p.Over || p.Hot) && p.Avg > limLo && fl > limLo
+			mayShed := (p.Over || p.HotMay) && p.Avg > limLo && fl > limLo
 			mustShed := (p.Over || p.Hot) && p.Avg > limHi && fl > limHi
 			if shed && !mayShed {
 				out = append(out, vfFinding{"C02/mechanism/shed-below-factor-capacity/" + trig,
@@ -216,11 +232,11 @@ func vfJudge(p vfPre, shed bool) []vfFinding {
 func vfApplyAllow(m *vfModel, p vfPre, shed bool) {
 	if p.Over {
 		m.lastOver, m.everOver = p.T, true
-	} else if m.dropped && m.everOver && !p.Hot {
-		m.dropped = false // the episode ends: CPU below threshold, 1 s or more after the last overload
+	} else {
+		vfNoteBelow(m, p.T) // the episode ends: CPU below threshold, 1 s or more after the last overload
 	}
 	if shed {
-		m.dropped = true
+		m.dropped, m.dropMay = true, true
 		m.drops++
 		return
 	}
